@@ -52,13 +52,14 @@ def key_hash(key):
     return hashlib.sha1(key.encode()).hexdigest()[:12]
 
 
-def finish(prop, tier, obs, floors, info, t0, explanation, trusted, selfval=None, extra_cov=None):
+def finish(prop, tier, obs, floors, info, t0, explanation, trusted, selfval=None, extra_cov=None, deferred=()):
     """Print the report, write evidence, return the exit code."""
     from .core import AnalysisError
+    broken = list(deferred)
     for f in floors:
         if f.count < f.minimum:
-            raise AnalysisError("rule instance floor not met: %s matched %d constructs, expected at least %d "
-                                "(anchors moved or rule no longer recognises the idiom)" % (f.name, f.count, f.minimum))
+            broken.append("rule instance floor not met: %s matched %d constructs, expected at least %d "
+                          "(anchors moved or rule no longer recognises the idiom)" % (f.name, f.count, f.minimum))
     known = [k for k in load_known() if k.get("property") == prop and k.get("status") == "known"]
     known_keys = {k["key"]: k for k in known}
     failed = [o for o in obs if not o.ok and not o.note]
@@ -107,7 +108,7 @@ def finish(prop, tier, obs, floors, info, t0, explanation, trusted, selfval=None
            "per_rule": {k: {"obligations": v[0], "discharged": v[1]} for k, v in by_rule.items()},
            "floors": {f.name: {"matched": f.count, "minimum": f.minimum} for f in floors},
            "analysed": info, "trusted_base": trusted,
-           "known_findings_printed": sorted(seen), "notes_unreachable": len(notes),
+           "known_findings_printed": sorted(seen), "notes_unreachable": len(notes), "analysis_errors": broken,
            "exhaustive": True}
     if selfval is not None:
         cov["self_validation"] = selfval
@@ -120,4 +121,8 @@ def finish(prop, tier, obs, floors, info, t0, explanation, trusted, selfval=None
         json.dump(ev, fh, indent=1, default=str)
     print("[%s] %d obligations, %d discharged, %d known findings, %d notes, %d violations (%.2fs)" % (
         prop, len(obs), len(okobs), len(seen), len(notes), len(viol), time.time() - t0))
-    return 1 if viol else 0
+    for b in broken:
+        print("ANALYSIS-ERROR property=%s %s" % (prop, b))
+    if viol:
+        return 1          # a violation found by a working rule stands even if another rule lost its anchors
+    return 2 if broken else 0
